@@ -261,6 +261,11 @@ def check(run, prog, tier):
             else:
                 if stops and not p.truncated and not cyc:
                     note("O2:task-cleanup[non-cyclic-natural-end]", "a non-cyclic task sends a StopOffer when its repetition phase ends")
+                if cyc and not p.truncated and (p.returns() or p.outcome[0] == "fall") and not getattr(p, "swallowed", None):
+                    # (decisions on ANNOUNCE_TTL are free: whatever the TTL, infinite included, a cyclic instance keeps offering)
+                    note("O1:cyclic-task-never-ends", f"with a cyclic period ({cyc}) the offer task ends on its own after {len(normal)} offer(s)"
+                         + (f" and sends {len(stops)} StopOffer(s) while the instance is still running" if stops else "") +
+                         ": offers stop although the instance was not stopped")
             # may-answer flag set only after the first offer
             seen_offer = False
             for s_ in seq:
@@ -270,7 +275,7 @@ def check(run, prog, tier):
                     note("O3:flag-set-before-first-offer", "finds may be answered before the first offer was sent (initial wait phase)")
     run.floor("O1-paths", n_checked, 12)
     for key in ("O1:initial-delay", "O1:phase-delays", "O1:non-cyclic-goes-on", "O1:offer-per-wait", "O1:offer-before-initial-wait",
-                "O1:offer-destination", "O1:unexpected-await"):
+                "O1:offer-destination", "O1:unexpected-await", "O1:cyclic-task-never-ends"):
         run.ob("O1", f"{ot.qual}:{key[3:]}", key not in problems, loc(ot), problems.get(key, "holds on every enumerated path (with cancellation at every await)"))
     for key in sorted(k for k in problems if k.startswith("O2:")):
         run.ob("O2", f"{ot.qual}:{key[3:]}", False, loc(ot), problems[key])
